@@ -37,7 +37,8 @@ REQUIRED_MONITORS = ["facet-closure", "element-closure", "vertex-closure", "spel
 REQUIRED_REACH = ["3d-edge-dofs", "composite-edge-and-facet", "interior-facets-selected", "spelling:predicate",
                   "spelling:name", "spelling:collection", "filter:all-name", "filter:skip", "empty-selections",
                   "python-int-collections", "predicate-tags-and-oriented-selector", "large-coordinate-offset",
-                  "filter:empty-name-list"]
+                  "filter:empty-name-list", "filter:names-in-tuple", "filter:names-in-set", "filter:names-in-dict-keys",
+                  "query-sequence-on-one-basis"]
 
 
 def entity_maps(mesh, elem, kind, dim):
@@ -426,6 +427,36 @@ def one_case(ctx, k, kind):
                     ctx.reached("filter:skip")
                 many = set(view.all(rest).tolist())
                 ctx.check("skip-keep-drop-consistent", many == dropset, mech=f"all-list:{base}", names=rest, selector=sel, **tag)
+                # the names in every container a caller may hold them in: the same filter as the list
+                for cname, mk_ in (("tuple", tuple), ("set", set), ("frozenset", frozenset), ("dict-keys", lambda l: dict.fromkeys(l).keys()),
+                                   ("numpy-array", lambda l: np.array(l)), ("tuple-of-numpy-str", lambda l: tuple(np.array(l)))):
+                    try:
+                        ck = set(view.keep(mk_([a])).flatten().tolist())
+                        cd = set(view.drop(mk_([a])).flatten().tolist())
+                        ca = set(np.asarray(view.all(mk_(rest))).tolist())
+                        cs = set(basis.get_dofs(F.astype(np.int32), skip=mk_([a])).flatten().tolist()) if sel == "facets" else dropset
+                    except Exception as ex:  # noqa: BLE001  (refusing a container is not a wrong answer)
+                        ctx.tolerated("skip-keep-drop-consistent")
+                        ctx.drop(f"name-container-refused:{cname}:{type(ex).__name__}")
+                        continue
+                    ctx.check("skip-keep-drop-consistent", ck == keepset and cd == dropset and ca == dropset and cs == dropset,
+                              mech=f"names-in-a-{cname}-filter-differently-from-a-list", selector=sel, name=a,
+                              keep=len(ck), drop=len(cd), all_rest=len(ca), skip=len(cs), want_keep=len(keepset), want_drop=len(dropset), **tag)
+                    ctx.reached("filter:names-in-" + cname)
+                if sel == "facets":
+                    # a sequence of queries on ONE basis object: each answer is that of a fresh basis (an earlier query with
+                    # skip= or a name filter leaves nothing behind)
+                    fresh = lambda: skfem.CellBasis(mesh, rec.make())
+                    seq = [("skip-first", lambda b: b.get_dofs(skip=[a])), ("plain", lambda b: b.get_dofs()),
+                           ("skip-other", lambda b: b.get_dofs(skip=[allnames[-1]])), ("plain-again", lambda b: b.get_dofs()),
+                           ("facets-skip", lambda b: b.get_dofs(F.astype(np.int32), skip=[a])), ("facets-plain", lambda b: b.get_dofs(F.astype(np.int32)))]
+                    one = fresh()
+                    for qname, qf in seq:
+                        g1 = set(qf(one).flatten().tolist())
+                        g2 = set(qf(fresh()).flatten().tolist())
+                        ctx.check("skip-keep-drop-consistent", g1 == g2, mech=f"query-depends-on-earlier-queries-on-the-basis:{qname}",
+                                  got=len(g1), fresh=len(g2), name=a, **tag)
+                    ctx.reached("query-sequence-on-one-basis")
             # chains of filters compose as set operations (a filter that removed every name of an entity kind must
             # stay removed under the next one)
             if len(allnames) >= 1:
